@@ -44,6 +44,8 @@ enum Op {
     DropLazyGuard,
     MutParent,
     DropParent,
+    /// the parent is consumed by `Instrumented::from_parts((), parent).emit()`
+    EmitParent,
     MkForce,
     DropForce,
     WaitForData,
@@ -101,6 +103,7 @@ impl Model {
             }
             v.push(Op::MutParent);
             v.push(Op::DropParent);
+            v.push(Op::EmitParent);
             if !self.force_alive && !self.force_dropped {
                 v.push(Op::MkForce);
             }
@@ -148,7 +151,7 @@ impl Model {
                 }
             }
             Op::MutParent => self.a += 1,
-            Op::DropParent => self.parent_alive = false,
+            Op::DropParent | Op::EmitParent => self.parent_alive = false,
             Op::MkForce => self.force_alive = true,
             Op::DropForce => {
                 self.force_alive = false;
@@ -215,6 +218,7 @@ impl World {
             Op::DropLazyGuard => drop(self.lazy_guard.take()),
             Op::MutParent => self.parent.as_mut().unwrap().a += 1,
             Op::DropParent => drop(self.parent.take()),
+            Op::EmitParent => metrique::instrument::Instrumented::from_parts((), self.parent.take().unwrap()).emit(),
             Op::MkForce => self.force = Some(self.parent.as_ref().unwrap().force_flush_guard()),
             Op::DropForce => drop(self.force.take()),
             Op::WaitForData => {
